@@ -69,16 +69,31 @@ Proof.
   - inversion H.
 Qed.
 
+Lemma next_segment_spec f c f' : next_segment f = Some (c, f') ->
+  concat f = c ++ concat f' /\ c <> [].
+Proof.
+  induction f as [|x f IH]; simpl; [discriminate|].
+  destruct x as [|b x]; [intros H; simpl; apply IH; exact H|].
+  intros H. inversion H; subst. split; [reflexivity|discriminate].
+Qed.
+
 Lemma readinput_spec e len d e' : readinput e len = Some (d, e') ->
   rest e = d ++ rest e' /\ length d <= len - 1 /\ (2 <= len -> d <> []).
 Proof.
-  unfold readinput. destruct (rest e) as [|x r] eqn:Er; [discriminate|].
-  intros H. inversion H; subst; clear H. cbn [rest].
-  set (k := Nat.min _ _). repeat split.
-  - symmetry. apply firstn_skipn.
+  unfold readinput, rest.
+  set (seg := match cur e with [] => next_segment (future e) | _ => Some (cur e, future e) end).
+  assert (Hseg : forall c f, seg = Some (c, f) -> cur e ++ concat (future e) = c ++ concat f /\ c <> []).
+  { intros c f. unfold seg. destruct (cur e) as [|b r] eqn:Ec.
+    - intros H. apply next_segment_spec in H. exact H.
+    - intros H. inversion H; subst. split; [reflexivity|discriminate]. }
+  destruct seg as [[c f]|]; [|discriminate].
+  destruct (Hseg c f eq_refl) as (Heq & Hne).
+  intros H. inversion H; subst; clear H. cbn [cur future].
+  set (k := Nat.min (length c) (len - 1)). repeat split.
+  - rewrite Heq. rewrite app_assoc. now rewrite firstn_skipn.
   - apply Nat.le_trans with k; [apply firstn_le_length|unfold k; apply Nat.le_min_r].
-  - intros Hlen. assert (1 <= k) by (unfold k; destruct (sched e) as [|[|m] t]; lia).
-    destruct k; [lia|]. simpl. discriminate.
+  - intros Hlen. assert (1 <= k) by (unfold k; destruct c; [congruence|simpl length; lia]).
+    destruct c as [|b c]; [congruence|]. destruct k; [lia|]. simpl. discriminate.
 Qed.
 
 Lemma LB : LINEINBUF = 1002. Proof. reflexivity. Qed.
@@ -233,11 +248,18 @@ Proof.
   - destruct Hin as [Hin|[]]. discriminate.
 Qed.
 
+Lemma concat_segments cuts : forall stream, concat (segments stream cuts) = stream.
+Proof.
+  induction cuts as [|k cuts IH]; intros stream; simpl; [now rewrite app_nil_r|].
+  destruct stream as [|b s]; [reflexivity|].
+  cbn [concat]. rewrite IH. apply firstn_skipn.
+Qed.
+
 Theorem reader_line_shape stream cuts l lft :
   In (Line l, lft) (run_reader stream cuts) ->
   line_at stream l lft /\ no_crlf l /\ length l + 3 <= LINEINBUF.
 Proof.
   unfold run_reader. apply reader_lines.
-  - exists []. reflexivity.
+  - exists []. unfold total, rest. cbn [inn en cur future]. now rewrite concat_segments.
   - simpl. lia.
 Qed.
